@@ -60,27 +60,27 @@ type Event struct {
 
 // Result is what a world run produced.
 type Result struct {
-	Exit      int               `json:"exit"`             // as the real process would report
-	ExitHow   string            `json:"exit_how"`         // return | os.Exit | panic | deadlock | budget
-	Panic     string            `json:"panic,omitempty"`  // value + trace of an escaped panic
-	Verdict   string            `json:"verdict,omitempty"` // deadlock / budget text with wait-for info
-	Leaked    []string          `json:"leaked,omitempty"`  // tasks still blocked when the main task had finished and nothing could run
-	Steps     int               `json:"steps"`
-	SimNanos  int64             `json:"sim_ns"`
-	LogHash   string            `json:"log_hash"`
-	SchedFP   string            `json:"sched_fp"`
-	Branching int               `json:"branching"` // scheduling decisions with >=2 runnable tasks
-	Log       []Event           `json:"log,omitempty"`
-	Tail      []Event           `json:"tail,omitempty"`
-	Decisions map[string][]int  `json:"decisions,omitempty"`
-	Disk      map[string][]byte `json:"disk,omitempty"`
-	DiskDirs  []string          `json:"disk_dirs,omitempty"`
-	FSLog     []FSAccess        `json:"fs_log,omitempty"`
-	Counters  map[string]int    `json:"counters,omitempty"`
-	MapSites  map[string]int    `json:"map_sites,omitempty"` // site -> max number of keys seen
+	Exit      int                          `json:"exit"`              // as the real process would report
+	ExitHow   string                       `json:"exit_how"`          // return | os.Exit | panic | deadlock | budget
+	Panic     string                       `json:"panic,omitempty"`   // value + trace of an escaped panic
+	Verdict   string                       `json:"verdict,omitempty"` // deadlock / budget text with wait-for info
+	Leaked    []string                     `json:"leaked,omitempty"`  // tasks still blocked when the main task had finished and nothing could run
+	Steps     int                          `json:"steps"`
+	SimNanos  int64                        `json:"sim_ns"`
+	LogHash   string                       `json:"log_hash"`
+	SchedFP   string                       `json:"sched_fp"`
+	Branching int                          `json:"branching"` // scheduling decisions with >=2 runnable tasks
+	Log       []Event                      `json:"log,omitempty"`
+	Tail      []Event                      `json:"tail,omitempty"`
+	Decisions map[string][]int             `json:"decisions,omitempty"`
+	Disk      map[string][]byte            `json:"disk,omitempty"`
+	DiskDirs  []string                     `json:"disk_dirs,omitempty"`
+	FSLog     []FSAccess                   `json:"fs_log,omitempty"`
+	Counters  map[string]int               `json:"counters,omitempty"`
+	MapSites  map[string]int               `json:"map_sites,omitempty"` // site -> max number of keys seen
 	Taps      map[string][]json.RawMessage `json:"taps,omitempty"`
-	Procs     []ProcRecord      `json:"procs,omitempty"`
-	Driver    json.RawMessage   `json:"driver,omitempty"`
+	Procs     []ProcRecord                 `json:"procs,omitempty"`
+	Driver    json.RawMessage              `json:"driver,omitempty"`
 }
 
 type taskState int
